@@ -78,3 +78,84 @@ Proof.
   rewrite Rabs_mult. apply Rmult_le_compat_l; [apply Rabs_pos|].
   apply central_difference_remainder; assumption.
 Qed.
+
+(* ---- first-order consistency of the UPWIND stencil: the one-sided differences ---- *)
+Section Taylor2.
+Local Opaque Derive_n.
+Variable f : R -> R.
+Hypothesis smooth : forall t k, (k <= 2)%nat -> ex_derive_n f k t.
+
+Lemma taylor2_forward x h : 0 < h -> exists z, x < z < x + h /\
+  f (x + h) = f x + h * Derive_n f 1 x + h * h / 2 * Derive_n f 2 z.
+Proof.
+  intro Hh.
+  destruct (Taylor_Lagrange f 1 x (x + h)) as (z & Hz & E); [lra| intros t _ k Hk; apply smooth; exact Hk |].
+  exists z. split; [exact Hz|]. rewrite E. replace (x + h - x) with h by ring. cbn [sum_f_R0 fact INR pow Nat.mul Nat.add]. change (Derive_n f 0 x) with (f x). simpl INR. field.
+Qed.
+
+Lemma taylor2_backward x h : 0 < h -> exists z, x - h < z < x /\
+  f (x - h) = f x - h * Derive_n f 1 x + h * h / 2 * Derive_n f 2 z.
+Proof.
+  intro Hh. set (g := fun t => f (- t)).
+  assert (Dg : forall k t, (k <= 2)%nat -> Derive_n g k t = (-1) ^ k * Derive_n f k (- t)).
+  { intros k t Hk. unfold g. apply Derive_n_comp_opp. apply filter_forall. intros y j Hj. apply smooth. lia. }
+  assert (Eg : forall t k, (k <= 2)%nat -> ex_derive_n g k t).
+  { intros t k Hk. unfold g. apply ex_derive_n_comp_opp. apply filter_forall. intros y j Hj. apply smooth. lia. }
+  destruct (Taylor_Lagrange g 1 (- x) (- x + h)) as (z & Hz & E); [lra| intros t _ k Hk; apply Eg; exact Hk |].
+  exists (- z). split; [lra|].
+  assert (G : g (- x + h) = f (x - h)) by (unfold g; f_equal; ring).
+  rewrite <- G, E. replace (- x + h - - x) with h by ring. cbn [sum_f_R0 fact INR pow Nat.mul Nat.add]. rewrite !Dg by lia. rewrite !Ropp_involutive. change (Derive_n f 0 x) with (f x). simpl INR. simpl pow. field.
+Qed.
+
+(* | (f(x) - f(x-h)) / h - f'(x) | <= max|f''| h / 2   and the mirror image *)
+Theorem backward_difference_remainder x h M : 0 < h ->
+  (forall t, x - h < t < x + h -> Rabs (Derive_n f 2 t) <= M) ->
+  Rabs ((f x - f (x - h)) / h - Derive_n f 1 x) <= M * h / 2.
+Proof.
+  intros Hh HM. destruct (taylor2_backward x h Hh) as (z & Hz & E). rewrite E.
+  replace ((f x - (f x - h * Derive_n f 1 x + h * h / 2 * Derive_n f 2 z)) / h - Derive_n f 1 x)
+    with (- (h / 2) * Derive_n f 2 z) by (field; lra).
+  assert (B := HM z ltac:(lra)).
+  rewrite Rabs_mult, Rabs_Ropp, (Rabs_pos_eq (h / 2)) by lra.
+  replace (M * h / 2) with (h / 2 * M) by field. apply Rmult_le_compat_l; [lra|exact B].
+Qed.
+
+Theorem forward_difference_remainder x h M : 0 < h ->
+  (forall t, x - h < t < x + h -> Rabs (Derive_n f 2 t) <= M) ->
+  Rabs ((f (x + h) - f x) / h - Derive_n f 1 x) <= M * h / 2.
+Proof.
+  intros Hh HM. destruct (taylor2_forward x h Hh) as (z & Hz & E). rewrite E.
+  replace ((f x + h * Derive_n f 1 x + h * h / 2 * Derive_n f 2 z - f x) / h - Derive_n f 1 x)
+    with (h / 2 * Derive_n f 2 z) by (field; lra).
+  assert (B := HM z ltac:(lra)).
+  rewrite Rabs_mult, (Rabs_pos_eq (h / 2)) by lra.
+  replace (M * h / 2) with (h / 2 * M) by field. apply Rmult_le_compat_l; [lra|exact B].
+Qed.
+End Taylor2.
+
+(* the model's upwind convection stencil (convectionUpwindTerm) in an INTERIOR cell of a uniform Cartesian axis (A = 1, W = h,
+   fac = 1) with constant face velocity uc <> 0, applied to the samples of a C2 function:
+   | stencil - uc f'(xi) | <= |uc| max|f''| h / 2   (first-order consistency, either flow direction) *)
+Theorem taylor_upwind_cartesian_axis (f : R -> R) (m : Mesh ROps) (a : axis) (c : cell) (h xi uc M : R) (u : fvar ROps) (x : cvar ROps) :
+  (forall t k, (k <= 2)%nat -> ex_derive_n f k t) ->
+  0 < h -> uc <> 0 ->
+  is_lo a c = false -> is_hi ROps m a c = false ->
+  mfac ROps m a c = 1 -> mA ROps m a (cidx a c) = 1 -> mA ROps m a (pred (cidx a c)) = 1 -> mW ROps m a (cidx a c) = h ->
+  u a c = uc /\ u a (cdn a c) = uc ->
+  x (cdn a c) = f (xi - h) /\ x c = f xi /\ x (cup a c) = f (xi + h) ->
+  (forall t, xi - h < t < xi + h -> Rabs (Derive_n f 2 t) <= M) ->
+  Rabs (apply_axis ROps (upwAW ROps m u u) (upwAP ROps m u u) (upwAE ROps m u u) x a c - uc * Derive_n f 1 xi)
+  <= Rabs uc * (M * h / 2).
+Proof.
+  intros Sm Hh Hu Hlo Hhi Hf HA1 HA0 HW [U1 U0] (X0 & X1 & X2) HM.
+  assert (Es : apply_axis ROps (upwAW ROps m u u) (upwAP ROps m u u) (upwAE ROps m u u) x a c
+               = if Rlt_dec 0 uc then uc * ((f xi - f (xi - h)) / h) else uc * ((f (xi + h) - f xi) / h)).
+  { unfold apply_axis, upwAW, upwAP, upwAE, umax, umin, half_if. rewrite Hlo, Hhi, Hf, HA1, HA0, HW, U1, U0, X0, X1, X2.
+    cbn [kadd kmul ksub kdiv kopp kltb ROps k0 k1 K]. unfold R_ltb.
+    destruct (Rlt_dec 0 uc) as [P|P]; destruct (Rlt_dec uc 0) as [Q|Q]; try (exfalso; lra); field; lra. }
+  rewrite Es. destruct (Rlt_dec 0 uc) as [P|P].
+  - replace (uc * ((f xi - f (xi - h)) / h) - uc * Derive_n f 1 xi) with (uc * ((f xi - f (xi - h)) / h - Derive_n f 1 xi)) by ring.
+    rewrite Rabs_mult. apply Rmult_le_compat_l; [apply Rabs_pos|]. apply backward_difference_remainder; assumption.
+  - replace (uc * ((f (xi + h) - f xi) / h) - uc * Derive_n f 1 xi) with (uc * ((f (xi + h) - f xi) / h - Derive_n f 1 xi)) by ring.
+    rewrite Rabs_mult. apply Rmult_le_compat_l; [apply Rabs_pos|]. apply forward_difference_remainder; assumption.
+Qed.
